@@ -258,9 +258,15 @@ def rule_quote_escape(rep: Report, tz) -> None:
 	(`\\\\\\'`) from a quote after an escaped backslash (`\\\\'`)."""
 	from vlib.fold import enclosing_loop
 	r = rep.rule('C13/quote-escape-independent-of-prefix', 'Lexer.parse_quote decides whether a closing quote is escaped by comparing the preceding characters with the constant backslash, for every quote pair (raw strings too), and ends the scan on the parity of the backslash run', floor=2)
-	f = tz.func('Lexer.parse_quote')
+	from vlib.norm import helper_closure
+	entry = tz.func('Lexer.parse_quote')
+
+	def _scans(g) -> bool:
+		return any(isinstance(c_.func, ast.Attribute) and c_.func.attr in ('find', 'index') for lp in nodes(X(g), ast.While) for c_ in nodes(lp, ast.Call))
+	# the scan may live in a helper of the same class (`end, closed = self.seek_close(source, pair, begin)`): it is judged where it is written
+	f = next((g for g in helper_closure(entry) if _scans(g)), entry)
 	fx = FI(f)
-	src = f.params()[1]
+	src = next((unparse(c_.func.value) for lp in nodes(X(f), ast.While) for c_ in nodes(lp, ast.Call) if isinstance(c_.func, ast.Attribute) and c_.func.attr in ('find', 'index')), f.params()[1])
 	cmps = [c_ for c_ in nodes(fx, ast.Compare) if len(c_.ops) == 1 and isinstance(c_.ops[0], (ast.Eq, ast.NotEq)) and isinstance(c_.left, ast.Subscript) and unparse(c_.left.value) == src]
 	strips = [c_ for c_ in nodes(fx, ast.Call) if isinstance(c_.func, ast.Attribute) and c_.func.attr in ('rstrip', 'endswith') and c_.args and src in {n.id for n in ast.walk(c_.func.value) if isinstance(n, ast.Name)}]
 	if not cmps and not strips:
@@ -293,6 +299,108 @@ def rule_quote_escape(rep: Report, tz) -> None:
 			r.skip('scan-ends-on-parity', (TOKENIZER_PY, b.lineno), f'the scan ends under conditions this rule does not model: {[(unparse(a), p_) for a, p_ in known]}')
 	if not decided:
 		r.skip('scan-ends-on-parity', f.where, 'no conditional end of the scan found')
+	_resume_rule(r, x, scan, f)
+
+
+def _loop_paths(stmts: list[ast.stmt], state: dict[str, ast.AST], conds: list[tuple[ast.AST, bool]]):
+	"""(exit kind, last assignment per name, path conditions) for every path through a loop body; nested loops are opaque (names they assign are forgotten)"""
+	if not stmts:
+		yield 'fall', state, conds
+		return
+	st, rest = stmts[0], stmts[1:]
+	if isinstance(st, (ast.Break, ast.Return, ast.Raise)):
+		yield 'exit', state, conds
+	elif isinstance(st, ast.Continue):
+		yield 'fall', state, conds
+	elif isinstance(st, ast.If):
+		for arm, pol in ((st.body, True), (st.orelse, False)):
+			for kind, st2, c2 in _loop_paths(arm, dict(state), conds + [(st.test, pol)]):
+				if kind == 'fall' and not (arm and isinstance(arm[-1], ast.Continue)):
+					yield from _loop_paths(rest, st2, c2)
+				else:
+					yield kind, st2, c2
+	elif isinstance(st, (ast.While, ast.For)):
+		st2 = {k: v for k, v in state.items() if k not in {n.id for n in ast.walk(st) if isinstance(n, ast.Name) and isinstance(n.ctx, ast.Store)}}
+		yield from _loop_paths(rest, st2, conds)
+	else:
+		st2 = dict(state)
+		if isinstance(st, (ast.Assign, ast.AnnAssign)) and st.value is not None:
+			for t in (st.targets if isinstance(st, ast.Assign) else [st.target]):
+				if isinstance(t, ast.Name):
+					st2[t.id] = st.value
+		elif isinstance(st, ast.AugAssign) and isinstance(st.target, ast.Name):
+			st2[st.target.id] = ast.BinOp(left=st2.get(st.target.id, ast.Name(id=st.target.id, ctx=ast.Load())), op=st.op, right=st.value)
+		yield from _loop_paths(rest, st2, conds)
+
+
+def _resume_rule(r, x: ast.AST, scan: ast.While, f) -> None:
+	"""a candidate closer that turns out to be escaped hides exactly ONE character (the one after the backslash): the search must resume one character
+	after the start of the candidate. Resuming after the whole closer skips, for a three-character closer, two quote characters that may start the real
+	closer: triple-quote x backslash quote triple-quote (an escaped quote, then the closing triple) is lexed as a string ending at the escaped candidate plus
+	a stray quote. Decided on the paths through the scan loop that reach its back edge: the value of the search start there, as a linear form over the found index."""
+	q3 = '"' * 3
+	from vlib.linear import linear
+	finds = [(n, c_) for n in nodes(scan, (ast.Assign, ast.AnnAssign)) for c_ in [n.value] if isinstance(c_, ast.Call) and isinstance(c_.func, ast.Attribute) and c_.func.attr in ('find', 'index') and len(c_.args) >= 2 and isinstance(c_.args[1], ast.Name)]
+	if len(finds) != 1 or not isinstance((finds[0][0].targets[0] if isinstance(finds[0][0], ast.Assign) else finds[0][0].target), ast.Name):
+		r.skip('scan-resumes-one-past-candidate', f.where, 'the scan loop does not keep the search start in one local passed to find()')
+		return
+	asg, call = finds[0]
+	idx_name = (asg.targets[0] if isinstance(asg, ast.Assign) else asg.target).id
+	start = call.args[1].id
+	closer = unparse(call.args[0])
+	verdicts = []
+	for kind, state, conds in _loop_paths(list(scan.body), {}, []):
+		if kind != 'fall' or start not in state:
+			continue
+		terms, const = linear(state[start])
+		if terms.get(idx_name) != 1:
+			verdicts.append(('skip', f'search start `{unparse(state[start])[:50]}` is not the found index plus an offset'))
+			continue
+		other = {k: v for k, v in terms.items() if k != idx_name}
+		if not other and const == 1:
+			verdicts.append(('ok', ''))
+		elif other == {f'len({closer})': 1} and const == 0:
+			verdicts.append(('bad', unparse(state[start])))
+		else:
+			verdicts.append(('skip', f'search start `{unparse(state[start])[:50]}` after an escaped candidate'))
+	if any(v == 'bad' for v, _ in verdicts):
+		w = next(w for v, w in verdicts if v == 'bad')
+		r.violate('scan-resumes-one-past-candidate', (TOKENIZER_PY, scan.lineno), f'after a candidate closer that is escaped the scan resumes at `{w}`, i.e. after the WHOLE closer: with a three-character closer two quote characters are skipped that may begin the real closer — `a = {q3}x\\"{q3}` is lexed as the string `{q3}x\\{q3}` followed by a stray quote (CPython: one string token); an escape hides one character, the scan must resume at index + 1', unparse(scan.test))
+	elif verdicts and all(v == 'ok' for v, _ in verdicts):
+		r.ok('scan-resumes-one-past-candidate', (TOKENIZER_PY, scan.lineno))
+	else:
+		r.skip('scan-resumes-one-past-candidate', (TOKENIZER_PY, scan.lineno), '; '.join(w for v, w in verdicts if v == 'skip')[:160] or 'no path through the scan loop reaches its back edge with a new search start')
+
+
+def rule_comment_end(rep: Report, tz) -> None:
+	"""A comment ends at the FIRST occurrence of its closer (the line break): CPython knows no escapes inside comments, `# C:\\temp\\` is a complete
+	comment and the next line is code. The scan of Lexer.parse_comment (helpers included) must therefore not look at backslashes; sharing the
+	escape-aware scan of string literals makes a comment ending in a backslash swallow the next line with its NEWLINE / INDENT / DEDENT."""
+	from vlib.norm import helper_closure
+	r = rep.rule('C13/comment-ends-at-first-closer', 'Lexer.parse_comment finds the end of a comment without testing for a backslash (no escape can hide the line break that ends a comment)', floor=1)
+	f = tz.func('Lexer.parse_comment')
+	if f is None:
+		r.skip('parse_comment', (TOKENIZER_PY, 1), 'Lexer.parse_comment vanished')
+		return
+	n_tests = 0
+	for g in helper_closure(f):
+		gx = X(g)
+		params = set(g.params()) - {'self', 'cls'}
+		for c_ in nodes(gx, (ast.Compare, ast.Call)):
+			esc = isinstance(c_, ast.Compare) and any(isinstance(x, ast.Constant) and x.value == '\\' for x in [c_.left, *c_.comparators])
+			esc = esc or (isinstance(c_, ast.Call) and isinstance(c_.func, ast.Attribute) and c_.func.attr in ('rstrip', 'endswith', 'count') and any(isinstance(a, ast.Constant) and a.value == '\\' for a in c_.args))
+			if not esc:
+				continue
+			n_tests += 1
+			# an escape test that a parameter of the helper switches off (`if escapes: ...`) may be off for comments: not judged
+			gate = [a for a, _ in atoms(gx, c_) if g is not f and {n.id for n in ast.walk(a) if isinstance(n, ast.Name)} <= params and not any(isinstance(n, ast.Constant) and n.value == '\\' for n in ast.walk(a))]
+			gate = [a for a in gate if not any(isinstance(n, (ast.Subscript, ast.Call)) for n in ast.walk(a))]
+			if gate:
+				r.skip(f'{g.qualname}:escape-test', (TOKENIZER_PY, c_.lineno), f'backslash test under the helper parameter condition {[unparse(a) for a in gate]}')
+			else:
+				r.violate(f'{g.qualname}:escape-test', (TOKENIZER_PY, c_.lineno), f'the comment scan reaches `{unparse(c_)[:60]}` in {g.qualname}: a closer preceded by a backslash is skipped, so a comment whose last character is a backslash (`# C:\\temp\\`) runs on through the next physical line; that line and its NEWLINE / INDENT / DEDENT vanish from the token sequence, while CPython ends every comment at the line break', unparse(c_))
+	if n_tests == 0:
+		r.ok('no-escape-test', f.where, message='parse_comment and its helpers compare nothing with a backslash')
 
 
 def rule_source_map(rep: Report, tk) -> None:
@@ -460,6 +568,7 @@ def run(rep: Report, tier: str) -> None:
 
 	rule_bracket_layout(rep, tz)
 	rule_quote_escape(rep, tz)
+	rule_comment_end(rep, tz)
 	rule_indent_state(rep, tz, tk)
 	rule_context_fresh(rep, tz)
 	rule_lexer_state(rep, idx)
